@@ -119,14 +119,11 @@ pub(crate) fn file_name<'a, P: AsRef<Path> + ?Sized>(
     let path = path.as_ref().as_os_str().as_bytes();
     if path.is_empty() {
         return None;
-    } else if path.len() == 1 && path[0] == b'.' {
-        return None;
-    } else if path.last() == Some(&b'.') {
-        return None;
-    } else if path.len() >= 2 && &path[path.len() - 2..] == &b".."[..] {
-        return None;
     }
     let last_slash = memrchr(b'/', path).map(|i| i + 1).unwrap_or(0);
+    if matches!(&path[last_slash..], b"." | b"..") {
+        return None;
+    }
     Some(OsStr::from_bytes(&path[last_slash..]))
 }
 
